@@ -345,6 +345,7 @@ type contractInfo struct {
 	exp          uint64   // v2 expiration height / v1 window end
 	formH        uint64   // height of the (last) confirmation, v1
 	windowReorgs int      // reorgs that hit the open proof window
+	resH         uint64   // height of the (last) resolution
 }
 
 type v2rev struct {
@@ -653,6 +654,7 @@ func (w *world) contractEvents(diffs []consensus.V2FileContractElementDiff, v1di
 			}
 			if d.Resolution != nil {
 				c.resolved = !revert
+				c.resH = h
 				out = append(out, fmt.Sprintf("%d:res", i))
 			}
 		}
@@ -1158,6 +1160,24 @@ func (w *world) doReorg(tr *vhlib.Trace, depth, length int, to string, carry boo
 	}
 	forkH := tip.Height - uint64(depth)
 	w.forkGen++
+	// C06's "ends successful" presupposes that the host's proof gets a chance to be mined before the window closes:
+	// a contract whose open window is hit by more than two reorgs, or whose resolution is disconnected by a fork
+	// that ends at or past the expiration height, is outside that hypothesis (recorded here, in the interpreter,
+	// so that generated and replayed traces classify alike)
+	for _, c := range w.cons {
+		if c.v1 || len(c.seeds) == 0 {
+			continue
+		}
+		if tip.Height+1 >= c.fc.ProofHeight && forkH <= c.exp {
+			c.windowReorgs++
+			if c.windowReorgs > 2 {
+				c.unstable = true
+			}
+		}
+		if c.resolved && c.resH > forkH && forkH+uint64(length)+1 >= c.exp {
+			c.unstable = true
+		}
+	}
 	// second node: same genesis, copy of the common prefix
 	store2, ts2, err := chain.NewDBStore(chain.NewMemDB(), w.network, w.genesis, nil)
 	if err != nil {
